@@ -177,7 +177,9 @@ def evaluate(case):
 
 
 def case_key(case):
-    return "%s|%s|%s|%s|%s|%s%s" % (case["scope"], case["schema"], case["pair"], case["kind"], case.get("route", "string"),
+    # tier-independent: the scope family ("labels", "shapes", ...) without its size bound
+    fam = case["scope"].split("@")[1].split("<")[0].split("=")[0]
+    return "%s|%s|%s|%s|%s|%s%s" % (fam, case["schema"], case["pair"], case["kind"], case.get("route", "string"),
                                     T.render_doc(case["doc"]), " removed=2" if case["doc"].get("ns_all") else "")
 
 
